@@ -303,7 +303,10 @@ Definition setup_frame (hc : bool) (st : bstate) (l : nat) (w : wopts) (wf : wfr
       | d0 :: _ =>
           let total := cd_rows d0 in
           let to_ := match w_to w with Some t => t | None => total end in
-          if total <=? w_from w then Err EValue
+          (* the window lies inside the data: 0 <= from < total, to <= total, at least one row *)
+          if w_from w <? 0 then Err EValue
+          else if total <=? w_from w then Err EValue
+          else if total <? to_ then Err EValue
           else if to_ - w_from w <? 1 then Err EValue
           else
             (* _check_data: signed integer data *)
